@@ -44,6 +44,7 @@
 #include <cds/intrusive/feldman_hashset_hp.h>
 #include <cds/intrusive/feldman_hashset_dhp.h>
 #include <memory>
+#include <functional>
 #include "../client.h"
 
 using namespace khizmax_libcds_verif;
@@ -87,6 +88,7 @@ struct IMap {
     virtual bool insert( long k, long v ) = 0;
     virtual std::pair<bool, bool> update( long k, long v, bool allow ) = 0;
     virtual bool erase( long, long& ) { return false; }
+    std::function<void()> lockfn, unlockfn;      // LazyList<RCU>::extract must be called under the RCU read lock (documented)
     virtual bool extract( long, long& ) { return false; }
     virtual bool find( long k, long& v ) = 0;
     virtual bool contains( long k ) = 0;
@@ -284,10 +286,13 @@ struct KVListML : IMap {
     bool erase( long k, long& v ) override { return l.erase( k, [&v]( value_type& item ) { v = item.second; } ); }
     bool extract( long k, long& v ) override
     {
+        if ( lockfn ) lockfn();
         auto p = l.extract( k );
-        if ( !p ) return false;
-        v = p->second;
-        return true;
+        bool ok = bool( p );
+        if ( ok ) v = p->second;
+        if ( unlockfn ) unlockfn();
+        p.release();      // outside the RCU lock
+        return ok;
     }
     bool find( long k, long& v ) override { return l.find( k, [&v]( value_type& item ) { v = item.second; } ); }
     bool contains( long k ) override { return l.contains( k ); }
@@ -309,10 +314,13 @@ struct KVListIter : IMap {
     bool erase( long k, long& v ) override { return l.erase( k, [&v]( value_type& item ) { v = item.second; } ); }
     bool extract( long k, long& v ) override
     {
+        if ( lockfn ) lockfn();
         auto p = l.extract( k );
-        if ( !p ) return false;
-        v = p->second;
-        return true;
+        bool ok = bool( p );
+        if ( ok ) v = p->second;
+        if ( unlockfn ) unlockfn();
+        p.release();      // outside the RCU lock
+        return ok;
     }
     bool find( long k, long& v ) override { return l.find( k, [&v]( value_type& item ) { v = item.second; } ); }
     bool contains( long k ) override { return l.contains( k ); }
@@ -471,10 +479,13 @@ struct FeldmanMap : IMap {
     bool erase( long k, long& v ) override { return m.erase( k, [&v]( value_type& item ) { v = item.second; } ); }
     bool extract( long k, long& v ) override
     {
+        if ( lockfn ) lockfn();
         auto p = m.extract( k );
-        if ( !p ) return false;
-        v = p->second;
-        return true;
+        bool ok = bool( p );
+        if ( ok ) v = p->second;
+        if ( unlockfn ) unlockfn();
+        p.release();      // outside the RCU lock
+        return ok;
     }
     bool find( long k, long& v ) override { return m.find( k, [&v]( value_type& item ) { v = item.second; } ); }
     bool contains( long k ) override { return m.contains( k ); }
@@ -575,9 +586,9 @@ struct Fixture {
         else if ( v == "mmap_iterable_hp_upsert" ) m.reset( new KVListIter<MMapIter<HP>>( true, 2, 1 ));
         else if ( v == "mmap_iterable_dhp_upsert" ) m.reset( new KVListIter<MMapIter<DHP>>( true, 2, 1 ));
         else if ( v == "mset_michael_gpi" ) { m.reset( new SetListML<MSetMichael<rcu_gpi>>( 2, 1 )); gpi(); }
-        else if ( v == "mset_lazy_gpb" ) { m.reset( new SetListML<MSetLazy<rcu_gpb>>( 2, 1 )); gpb(); }
+        else if ( v == "mset_lazy_gpb" ) { m.reset( new SetListML<MSetLazy<rcu_gpb>>( 2, 1 )); gpb(); m->lockfn = [] { rcu_gpb::access_lock(); }; m->unlockfn = [] { rcu_gpb::access_unlock(); }; }
         else if ( v == "mmap_michael_gpb" ) { m.reset( new KVListML<MMapMichael<rcu_gpb>>( 2, 1 )); gpb(); }
-        else if ( v == "mmap_lazy_gpi" ) { m.reset( new KVListML<MMapLazy<rcu_gpi>>( 2, 1 )); gpi(); }
+        else if ( v == "mmap_lazy_gpi" ) { m.reset( new KVListML<MMapLazy<rcu_gpi>>( 2, 1 )); gpi(); m->lockfn = [] { rcu_gpi::access_lock(); }; m->unlockfn = [] { rcu_gpi::access_unlock(); }; }
         else if ( v == "mset_michael_nogc" ) m.reset( new SetListNogc<MSetMichael<NOGC>>( 2, 1 ));
         else if ( v == "mset_lazy_nogc" ) m.reset( new SetListNogc<MSetLazy<NOGC>>( 2, 1 ));
         else if ( v.compare( 0, 5, "sset_" ) == 0 || v.compare( 0, 5, "smap_" ) == 0 ) {
@@ -607,9 +618,9 @@ struct Fixture {
             else if ( v == "smap_iterable_dhp_st" ) put_sl( new KVListIter<SMapIter<DHP, false>>( true, nItems, lf ));
             else if ( v == "smap_iterable_hp_updfn" ) put_sl( new KVListIter<SMapIter<HP, true>>( false, nItems, lf ));  // hazard variant, see above
             else if ( v == "sset_michael_gpi" ) { put_sl( new SetListML<SSetMichael<rcu_gpi, true>>( nItems, lf )); gpi(); }
-            else if ( v == "sset_lazy_gpb" ) { put_sl( new SetListML<SSetLazy<rcu_gpb, true>>( nItems, lf )); gpb(); }
+            else if ( v == "sset_lazy_gpb" ) { put_sl( new SetListML<SSetLazy<rcu_gpb, true>>( nItems, lf )); gpb(); m->lockfn = [] { rcu_gpb::access_lock(); }; m->unlockfn = [] { rcu_gpb::access_unlock(); }; }
             else if ( v == "smap_michael_gpb_st" ) { put_sl( new KVListML<SMapMichael<rcu_gpb, false>>( nItems, lf )); gpb(); }
-            else if ( v == "smap_lazy_gpi" ) { put_sl( new KVListML<SMapLazy<rcu_gpi, true>>( nItems, lf )); gpi(); }
+            else if ( v == "smap_lazy_gpi" ) { put_sl( new KVListML<SMapLazy<rcu_gpi, true>>( nItems, lf )); gpi(); m->lockfn = [] { rcu_gpi::access_lock(); }; m->unlockfn = [] { rcu_gpi::access_unlock(); }; }
             else if ( v == "sset_michael_nogc" ) put_sl( new SetListNogc<SSetMichael<NOGC, true>>( nItems, lf ));
             else if ( v == "sset_lazy_nogc_st" ) put_sl( new SetListNogc<SSetLazy<NOGC, false>>( nItems, lf ));
         }
